@@ -112,6 +112,9 @@ func corpus() []*history {
 		hist(false, oFS(""), oSetLine("hé\xffy"), oDump()),
 		hist(false, oFS("a("), oSetLine("x")),
 		hist(false, oFS("."), oSetLine("a.b.c"), oDump(), oFS("|"), oSetLine("a|b"), oDump()),
+		// thorough seed 3 (model repaired): a regex match never begins inside a multi-byte character
+		hist(false, oFSRe(reCat(&reNode{K: "."}, &reNode{K: "."})), oSetLine("\u2003"), oDump(), oSetLine("a\u2003b\xff\xfe"), oDump(), oSetLine("\xe2\x80"), oDump()),
+		hist(false, oFSRe(reCat(reRep("?", reB('x')), reCat(&reNode{K: "."}, reCls(true, [2]byte{'a', 'z'})))), oSetLine("é\u2003xéé"), oDump()),
 		// strings.Fields splits at Unicode spaces too (observation in DESIGN.md; correspondence only)
 		hist(false, oSetLine("a b\u0085c d\ve\ff\rg"), oDump()),
 		// RS="" adds newline as a separator for single-character FS
